@@ -7,6 +7,12 @@ CORPUS = os.path.join(vlib.ROOT, "corpus", "C01-window-fork.json")
 # the same fork with every coin bit true: reachable by the order of delivery alone (no special hash)
 CORPUS_SCHED = os.path.join(vlib.ROOT, "corpus", "C01-window-fork-sched.json")
 
+# second, independent fork: fame decided with the super-majority of the NEXT round's (smaller) validator set
+# (known finding C01-fame-threshold-after-shrink); the window is respected there, so C10 has nothing to report
+CORPUS_SHRINK = os.path.join(vlib.ROOT, "corpus", "C01-shrink-fork.json")
+SCENARIOS = (("window-fork", CORPUS, ("C01", "C10")), ("window-fork-sched", CORPUS_SCHED, ("C01", "C10")),
+             ("shrink-fork", CORPUS_SHRINK, ("C01",)))
+
 def replay(corpus=None):
     corpus = corpus or CORPUS
     if not os.path.exists(corpus):
@@ -32,8 +38,9 @@ def replay(corpus=None):
 def apply(pid, ctx, findings, diffs, cov):
     """Adds the replays' oracle lines of property pid to the findings; a scenario that can no longer be staged, a
     crash, or a model/implementation difference is a broken correspondence, not silence."""
-    for name, corpus in (("window-fork", CORPUS), ("window-fork-sched", CORPUS_SCHED)):
-        _apply_one(pid, ctx, findings, diffs, cov, name, corpus)
+    for name, corpus, pids in SCENARIOS:
+        if pid in pids:
+            _apply_one(pid, ctx, findings, diffs, cov, name, corpus)
 
 def _apply_one(pid, ctx, findings, diffs, cov, name, corpus):
     w = replay(corpus)
